@@ -19,7 +19,8 @@ TargetKinds == {"local", "aux1", "aux2", "aux3", "trans", "selfrec", "mutual", "
 Shapes      == {"prim", "object", "arrayref", "tuple", "allof", "map", "nested", "ptrarray", "ref"}
 HolderKinds == {"prop", "items", "tuple", "addprops", "additems", "allof", "alias", "opbody", "pathbody",
                 "code", "default", "sharedparam", "sharedresp", "nested", "opnested", "opitems",
-                "auxresp", "auxparam", "auxpathitem", "unusedparam", "unusedresp", "casesiblings"}
+                "auxresp", "auxparam", "auxpathitem", "unusedparam", "unusedresp", "casesiblings",
+                "patprop", "anyof", "oneof", "not", "nesteddefs"}
 AuxHolders  == {"auxresp", "auxparam", "auxpathitem"}
 SecondKinds == {"none", "code", "prop2", "same"}
 Collisions  == {"none", "exact", "case", "twoimports"}
@@ -127,6 +128,12 @@ Holder(h, REF) ==
     [] h = "additems" -> inDef(Mk([type |-> "array"], [items |-> ListOf(<<Int>>), additionalItems |-> REF]))
     [] h = "allof"    -> inDef(Mk(<<>>, [allOf |-> ListOf(<<REF, ObjP([N_10 |-> Str])>>)]))
     [] h = "alias"    -> inDef(REF)
+    \* the keywords Swagger 2 does not use but the schema model carries (each is a different container type in replace.go)
+    [] h = "patprop"  -> inDef(Obj([patternProperties |-> Mk(<<>>, [N_9 |-> REF])]))
+    [] h = "anyof"    -> inDef(Mk(<<>>, [anyOf |-> ListOf(<<Str, REF>>)]))
+    [] h = "oneof"    -> inDef(Mk(<<>>, [oneOf |-> ListOf(<<REF>>)]))
+    [] h = "not"      -> inDef(Mk([type |-> "object"], [not |-> REF]))
+    [] h = "nesteddefs" -> inDef(Obj([definitions |-> Mk(<<>>, [N_9 |-> REF]), properties |-> Mk(<<>>, [N_10 |-> Str])]))
     [] h = "nested"   -> inDef(ObjP([N_9 |-> ObjP([N_11 |-> REF, N_10 |-> Int])]))
     \* two inline complex schemas at the same depth whose property names differ by letter case only (C_9 is the case variant of N_9)
     [] h = "casesiblings" -> inDef(ObjP([N_9 |-> ObjP([N_11 |-> REF]), C_9 |-> ObjP([N_10 |-> Str])]))
